@@ -156,6 +156,7 @@ def dispatch (j : Json) : Except String Res := do
   | "problem" => problemOp j
   | "pubfuzz" => pubFuzzOp j
   | "present" => presentOp j
+  | "rebuild" => rebuildOp j
   | "statusline" | "ctline" | "locline" | "headers" => jtpLineOp op j
   | "fetchseq" => fetchSeqOp j
   | "webfinger" => webfingerOp j
